@@ -1,5 +1,6 @@
 import Driver.J
 import Platypus.Spec.LnColSpec
+import Platypus.Model.ErrChain
 open Lean Platypus.LnCol
 
 namespace DrvC17
@@ -33,9 +34,177 @@ def lncol (j : Json) : Json := Id.run do
       note := s!"pos={pos} spec={lcStr sp} impl cache={lcStr ic} lin={lcStr il}"
   return J.obj [("id", J.get j "id"), ("agree", agree), ("spec", spec), ("n", n), ("note", note)]
 
+/-! ### positions stored in the syntax tree (kind `treepos`) -/
+
+def lowerB (b : List UInt8) : List UInt8 := b.map fun c => if 65 ≤ c && c ≤ 90 then c + 32 else c
+
+/-- the source at offset `pos` starts with one of the given spellings (compared in lower case) -/
+def spells (src : List UInt8) (pos : Int) (alts : List String) : Bool :=
+  pos ≥ 0 && alts.any fun a =>
+    let ab := a.toUTF8.toList
+    lowerB ((src.drop pos.toNat).take ab.length) == ab
+
+/-- a dumped position `[pos, ln, col]`: line and column are those of the offset -/
+def lcOk (src : List UInt8) (p : Json) : Bool :=
+  let a := J.arr p
+  match Platypus.LnCol.spec src (J.int a[0]!) with
+  | some lc => J.int a[1]! == lc.ln && J.int a[2]! == lc.col
+  | none => false
+
+def posOf (p : Json) : Int := J.int (J.arr p)[0]!
+
+def arithSym : String → List String
+  | "add" => ["+"] | "sub" => ["-"] | "mul" => ["*"] | "div" => ["/"] | "mod" => ["%"]
+  | "eq" => ["=="] | "ne" => ["!="] | "lt" => ["<"] | "le" => ["<="] | "gt" => [">"] | "ge" => [">="]
+  | "and" => ["&&"] | "or" => ["||"] | _ => []
+def asgSym : String → List String
+  | "eq" => ["="] | "addEq" => ["+="] | "subEq" => ["-="] | "mulEq" => ["*="] | "divEq" => ["/="] | "modEq" => ["%="] | _ => []
+
+/-- offset of the first token of an identifier / index / attribute expression -/
+partial def leftmost (j : Json) : Option Int :=
+  match J.str (J.get j "t") with
+  | "id" => some (posOf (J.get j "p"))
+  | "index" =>
+    if J.isNull (J.get j "obj") then
+      -- `.[i]`: ast.NodeStartPos takes the first bracket
+      (J.arr (J.get j "lbs"))[0]?.map fun p => posOf p
+    else some (posOf (J.get (J.get j "obj") "p"))
+  | "attr" => leftmost (J.get j "obj")
+  | _ => none
+
+/-- walk the dumped tree; every stored position must carry the line/column of its offset and the
+    source must spell the node's token there.  Returns the first complaint. -/
+partial def treeCheck (src : List UInt8) (j : Json) : Option String :=
+  match j with
+  | .arr a => a.foldl (fun acc x => acc <|> treeCheck src x) none
+  | .obj kvs =>
+    let g := J.get j
+    let t := J.str (g "t")
+    let want (field : String) (alts : List String) : Option String :=
+      let p := g field
+      if J.isNull p then none
+      else if !lcOk src p then some s!"{t}.{field}: line/column of {p.compress} are not those of its offset"
+      else if !spells src (posOf p) alts then some s!"{t}.{field} at {posOf p}: the source does not spell {alts} there"
+      else none
+    let wantAll (field : String) (alts : List String) : Option String :=
+      (J.arr (g field)).foldl (fun acc p =>
+        acc <|> (if !lcOk src p then some s!"{t}.{field}: line/column of {p.compress} are not those of its offset"
+                 else if !spells src (posOf p) alts then some s!"{t}.{field} at {posOf p}: the source does not spell {alts} there" else none)) none
+    let name (h : Json) : List String := [String.ofList ((lowerB (J.hx h)).map fun c => Char.ofNat c.toNat), "`"]
+    let digits := ["0","1","2","3","4","5","6","7","8","9",".","+","-"]
+    let own : Option String :=
+      match t with
+      | "id" => want "p" (name (g "n"))
+      | "str" => want "p" ["\"", "'"]
+      | "int" => want "p" digits
+      | "float" => want "p" digits
+      | "bool" => want "p" ["true", "false"]
+      | "nil" => want "p" ["nil", "null"]
+      | "list" => want "lb" ["["] <|> want "rb" ["]"]
+      | "map" => want "lb" ["{"] <|> want "rb" ["}"]
+      | "paren" => want "lp" ["("] <|> want "rp" [")"]
+      | "index" =>
+        (if J.isNull (g "obj") then none else
+          let o := g "obj"
+          if !lcOk src (J.get o "p") then some "index.obj: line/column" else
+          if !spells src (posOf (J.get o "p")) (name (J.get o "n")) then some s!"index.obj at {posOf (J.get o "p")}: the source does not spell the name there" else none)
+        <|> wantAll "lbs" ["["] <|> wantAll "rbs" ["]"]
+      | "attr" =>
+        let p := g "p"
+        if !lcOk src p then some s!"attr.p: line/column of {p.compress} are not those of its offset"
+        else match leftmost j with
+          | some st => if posOf p == st then none else some s!"attr.p is {posOf p}, the expression starts at {st}"
+          | none => none
+      | "unary" => want "p" (match J.str (g "op") with | "neg" => ["-"] | "pos" => ["+"] | _ => ["!"])
+      | "arith" => want "p" (arithSym (J.str (g "op")))
+      | "cond" => want "p" (arithSym (J.str (g "op")))
+      | "in" => want "p" ["in"]
+      | "assign" => want "p" (asgSym (J.str (g "op")))
+      | "call" => want "np" (name (g "n")) <|> want "lp" ["("] <|> want "rp" [")"]
+      | "slice" => want "lb" ["["] <|> want "rb" ["]"]
+      | "if" =>
+        ((J.arr (g "ifs")).toList.zipIdx.foldl (fun acc (i, k) =>
+          acc <|> (let p := J.get i "p"
+                   if !lcOk src p then some "if.p: line/column" else
+                   if !spells src (posOf p) [if k == 0 then "if" else "elif"] then some s!"if element {k} at {posOf p}: keyword not there" else none)) none)
+        <|> (if J.isNull (g "els") then none else want "ep" ["else"])
+      | "for" => want "p" ["for"]
+      | "forin" => want "fp" ["for"] <|> want "ip" ["in"]
+      | "break" => want "p" ["break"]
+      | "continue" => want "p" ["continue"]
+      | _ => none
+    own <|> kvs.foldl (fun acc _ v => acc <|> treeCheck src v) none
+  | _ => none
+
+def treepos (j : Json) : Json :=
+  let src := J.hx (J.get j "src")
+  match treeCheck src (J.get j "ast") with
+  | none => J.obj [("id", J.get j "id"), ("agree", true), ("spec", true), ("note", "")]
+  | some msg => J.obj [("id", J.get j "id"), ("agree", true), ("spec", false), ("note", msg)]
+
+/-! ### positions of errors (kind `errpos`) -/
+
+/-- the error names the script at fault and a position inside the statement at fault; every
+    position of the chain carries the line/column of its offset in its own file -/
+def errpos (j : Json) : Json := Id.run do
+  let id := J.get j "id"
+  let srcs := J.get j "srcs"
+  let chain := (J.arr (J.get (J.get j "err") "chain")).toList
+  match chain with
+  | [] => return J.obj [("id", id), ("agree", true), ("spec", false), ("note", "error without a position")]
+  | first :: _ =>
+    let a := J.arr first
+    let file := J.str a[0]!
+    let pos := J.int a[1]!
+    if file != J.str (J.get j "file") then
+      return J.obj [("id", id), ("agree", true), ("spec", false), ("note", s!"error names file {file}, the fault is in {J.str (J.get j "file")}")]
+    let span := J.arr (J.get j "span")
+    if span.size == 2 && !(J.int span[0]! ≤ pos && pos < J.int span[1]!) then
+      return J.obj [("id", id), ("agree", true), ("spec", false), ("note", s!"error position {pos} is outside the statement at fault [{J.int span[0]!}, {J.int span[1]!})")]
+    for c in chain do
+      let a := J.arr c
+      let src := J.hx (J.get srcs (J.str a[0]!))
+      match Platypus.LnCol.spec src (J.int a[1]!) with
+      | none => return J.obj [("id", id), ("agree", true), ("spec", false), ("note", s!"chain position {J.int a[1]!} is beyond the source of its file")]
+      | some lc =>
+        if J.int a[2]! != lc.ln || J.int a[3]! != lc.col then
+          return J.obj [("id", id), ("agree", true), ("spec", false), ("note", s!"chain position {J.int a[1]!}: line/column {J.int a[2]!}:{J.int a[3]!} are not those of the offset ({lc.ln}:{lc.col})")]
+    return J.obj [("id", id), ("agree", true), ("spec", true), ("note", "")]
+
+/-! ### error chain objects (kind `chainops`) -/
+
+open Platypus.ErrChain in
+def chainops (j : Json) : Json := Id.run do
+  let id := J.get j "id"
+  let posOfJ (o : Json) : Position := ⟨J.hx (J.get o "file"), J.int (J.get o "ln"), J.int (J.get o "col"), J.int (J.get o "pos")⟩
+  let mut store : Store := []
+  let mut n := 0
+  for (o, snap) in (J.arr (J.get j "ops")).toList.zip (J.arr (J.get j "snaps")).toList do
+    n := n + 1
+    let op : Op := match J.str (J.get o "op") with
+      | "new" => .new (J.hx (J.get o "file")) (J.int (J.get o "ln")) (J.int (J.get o "col")) (J.int (J.get o "pos")) (J.hx (J.get o "msg"))
+      | "append" => .append (J.nat (J.get o "h")) (posOfJ o)
+      | _ => .copy (J.nat (J.get o "h"))
+    store := step store op
+    let impl := (J.arr snap).toList
+    if impl.length != store.length then
+      return J.obj [("id", id), ("agree", false), ("spec", false), ("note", s!"after operation {n}: {impl.length} errors, model {store.length}")]
+    for (e, ij) in store.zip impl do
+      let ichain := (J.arr (J.get ij "chain")).toList.map fun c => let a := J.arr c; (⟨J.hx a[0]!, J.int a[2]!, J.int a[3]!, J.int a[1]!⟩ : Position)
+      if ichain != e.chain || J.hx (J.get ij "msg") != e.err then
+        return J.obj [("id", id), ("agree", false), ("spec", false), ("note", s!"after operation {n}: an error's chain is {(J.get ij "chain").compress}, the model has {e.chain.length} positions (an append reached an error it was not applied to, or was lost)")]
+      if J.hx (J.get ij "text") != e.render then
+        return J.obj [("id", id), ("agree", false), ("spec", false), ("note", s!"after operation {n}: rendering differs: {J.str (J.get ij "text")}")]
+      if !J.bool (J.get ij "json_rt") then
+        return J.obj [("id", id), ("agree", true), ("spec", false), ("note", s!"after operation {n}: the error does not survive a JSON round trip")]
+  return J.obj [("id", id), ("agree", true), ("spec", true), ("n", n), ("note", "")]
+
 def handle (j : Json) : Json :=
   match J.str (J.get j "k") with
   | "lncol" => lncol j
+  | "treepos" => treepos j
+  | "errpos" => errpos j
+  | "chainops" => chainops j
   | k => J.obj [("id", J.get j "id"), ("agree", false), ("spec", true), ("note", s!"unknown kind {k}")]
 
 end DrvC17
